@@ -6,7 +6,7 @@ import subprocess
 import time
 
 from . import extract
-from .rustlex import ExtractError
+from .rustlex import ExtractError, mask
 
 VERIF = os.path.dirname(os.path.dirname(os.path.abspath(__file__)))
 CACHE = os.path.join(VERIF, '.cache')
@@ -29,10 +29,11 @@ UNITS = {
                files=['searchlite-core/src/query/sort.rs'],
                bounded={'k9_pick_numeric_i64_len0': 'list length 0', 'k9_pick_numeric_i64_len1': 'list length 1', 'k9_pick_numeric_i64_len3': 'list length 3 (i64 values)'},
                assumes=[]),
-    'K5': dict(crate='searchlite-ffi', prefixes=['k5_'], title='FFI copy tail and buffer guard of searchlite_search',
+    'K5': dict(crate='searchlite-ffi', prefixes=['k5_'], title='tail of searchlite_search: output-buffer guard, bounded copy, NUL terminator',
                files=['searchlite-ffi/src/lib.rs'],
-               bounded={'k5_copy_stays_in_buffer': 'response length <= N and buf_cap <= N+2 with N = 32 in the quick tier, N = 1024 in the thorough tier (all byte values)'},
-               assumes=['the two slices are the only uses of out_json_buf in searchlite_search (checked mechanically by the extractor side-condition)',
+               bounded={'k5_copy_stays_in_buffer': 'response length <= N and buf_cap <= N+2 with N = 32 in the quick tier, N = 256 in the thorough tier (all byte values)'},
+               assumes=['a null out_json_buf is rejected by an `is_null()` test that returns 0 before its first use (checked syntactically by the extractor side condition; the harness exercises non-null buffers of every capacity incl. 0)',
+                        'the serialisation call is replaced by a parameter holding the response bytes',
                         'null-argument guards of the other FFI entry points are not harnessed (kani-compiler panics once a harness reaches the engine)']),
 }
 
@@ -53,15 +54,32 @@ def gen_ffi_slice():
         return False, 'extractor: %s' % e, [], []
     with open(os.path.join(GEN, 'ffi_copy.rs'), 'w') as f:
         f.write(gen.text())
-    # side condition: out_json_buf is used nowhere else in searchlite_search
+    # side conditions on the part of searchlite_search the harness does not see:
+    #  (1) out_json_buf is not used before the extracted tail, except inside a null test that returns 0;
+    #  (2) the tail itself or such an earlier test rejects a null out_json_buf before any use.
     from .rustlex import RustFile
     rf = RustFile(os.path.join(REPO, 'searchlite-ffi/src/lib.rs'))
     it = rf.find_item('fn searchlite_search')
     body = rf.masked[it['sig_end']:it['end']]
-    total = len(re.findall(r'(?<![A-Za-z0-9_])out_json_buf(?![A-Za-z0-9_])', body))
-    inslices = len(re.findall(r'(?<![A-Za-z0-9_])out_json_buf(?![A-Za-z0-9_])', gen.text())) - 2   # minus the two parameters
-    if total != inslices:
-        return False, 'side condition failed: out_json_buf is used %d times in searchlite_search but %d times inside the extracted slices' % (total, inslices), gen.rewrite_log, gen.functions
+    tail_src = gen.text()
+    first_line = gen.functions[0]['repo_lines'][0]          # first repository line of the extracted tail
+    off = 0
+    for _ in range(first_line - 1):
+        off = rf.text.find('\n', off) + 1
+    head = rf.masked[it['sig_end']:off]
+    uses_head = [m.start() for m in re.finditer(r'(?<![A-Za-z0-9_])out_json_buf(?![A-Za-z0-9_])', head)]
+    null_tested_head = False
+    for u in uses_head:
+        ctx = head[max(0, u - 120):u + 200]
+        if re.match(r'out_json_buf\.is_null\(\)', head[u:u + 40]) and re.search(r'\{\s*return 0;\s*\}', ctx):
+            null_tested_head = True
+        else:
+            return False, 'side condition failed: out_json_buf is used before the extracted tail outside a null test (%s)' % head[u:u + 60].strip(), gen.rewrite_log, gen.functions
+    tm = mask(tail_src)
+    mt = re.search(r'(?<![A-Za-z0-9_])out_json_buf(?![A-Za-z0-9_])', tm[tm.find('{'):])
+    null_tested_tail = bool(mt and re.match(r'out_json_buf\.is_null\(\)', tm[tm.find('{') + mt.start():][:40]))
+    if not (null_tested_head or null_tested_tail):
+        return False, 'side condition undecided: no null test of out_json_buf precedes its first use (the harness only exercises non-null buffers)', gen.rewrite_log, gen.functions
     return True, None, gen.rewrite_log, gen.functions
 
 
